@@ -503,6 +503,107 @@ def task_ksa_subspace_solve_excited(ctx):
     ksa_subspace_contract(ctx, "seqm.seqm_functions.XLESMD:compute_dxi2dt2_rankm", X.compute_dxi2dt2_rankm, replay_xlesmd_exhausted_row, "ksa_es_subspace", vectors=True)
 
 
+def replay_canon_rows(model):
+    """real Canon_DM_PRT at a high electronic temperature (30 000 K: fractional occupations): a batch of two rows against each row
+    alone, and the trace of every response (must vanish: the response conserves the electron number)."""
+    import torch
+    from seqm.seqm_functions.canon_dm_prt import Canon_DM_PRT
+
+    torch.set_default_dtype(torch.float64)
+    g = torch.Generator().manual_seed(2)
+    n, kB, T, m = 4, 8.61739e-5, 30000.0, 6
+    one, zero = torch.tensor([1]), torch.tensor([0])
+
+    def row(seed):
+        A = torch.randn(n, n, generator=g)
+        H = A + A.T
+        e, Q = torch.linalg.eigh(H)
+        F1 = torch.randn(n, n, generator=g)
+        return (F1 + F1.T), Q, e, e[1:3].mean()
+
+    rows = [row(0), row(1)]
+
+    def call(idx):
+        F1 = torch.stack([rows[i][0] for i in idx])
+        Q = torch.stack([rows[i][1] for i in idx])
+        e = torch.stack([rows[i][2] for i in idx])
+        mu = torch.stack([rows[i][3] for i in idx]).reshape(-1, 1)
+        k = len(idx)
+        return Canon_DM_PRT(F1, T, torch.ones(k, dtype=torch.long), torch.zeros(k, dtype=torch.long), Q, e, mu, m, kB, torch.ones(k, n))
+
+    both = call([0, 1])
+    alone = [call([0])[0], call([1])[0]]
+    dev = max(float((both[i] - alone[i]).abs().max()) for i in range(2))
+    tr = max(abs(float(both[i].diagonal().sum())) for i in range(2))
+    return {"reproduced": dev > 1e-10 or tr > 1e-10, "max |response in batch - response alone|": dev, "max |trace of a response|": tr}
+
+
+def task_canon_dm_prt(ctx):
+    """Canon_DM_PRT (density response of the Krylov kernel): the response of molecule b mentions only molecule b's inputs (its
+    perturbation, eigenpairs, chemical potential) and is traceless (the chemical-potential correction removes exactly ITS OWN
+    trace), so the auxiliary density keeps its electron count.  Real function, m = 1 recursion level, batch of two 2-orbital rows,
+    eigenvectors = identity (the trace is then the one in the eigenbasis), pack/unpack as the identity."""
+    import seqm.seqm_functions.canon_dm_prt as CD
+    from contracts.C07_differentiability import _quiet
+
+    CM = "seqm.seqm_functions.canon_dm_prt"
+    fn = ctx.under_contract(CM + ":Canon_DM_PRT", stubs=["pack", "unpack"])
+    rep = []
+    rp = lambda mdl: (rep or rep.append(_quiet(replay_canon_rows)) or rep)[0]
+    T, kB = real("Tel"), real("kB")
+
+    def thunk():
+        assume((T > 0) & (kB > 0))
+        F1 = st.symbolic((2, 2, 2), "F1")
+        for b in range(2):
+            F1.a[b, 1, 0] = F1.a[b, 0, 1]
+        Q = st.tensor(np.stack([np.eye(2), np.eye(2)]))
+        ev = st.symbolic((2, 2), "h")
+        mu0 = st.symbolic((2, 1), "mu")
+        mask = st.ones(2, 2)
+        return fn(F1, T, st.tensor([0, 0]), st.tensor([2, 2]), Q, ev, mu0, 1, kB, mask)
+
+    ex = ctx.explore(thunk, stubs={CM + ":pack": lambda x, nh, nhy: x, CM + ":unpack": lambda x, nh, nhy, size: x}, name="Canon_DM_PRT", max_paths=8)
+    ok = [p for p in ex.paths if p.raised is None]
+    if len(ok) != 1:
+        for p in ex.paths:
+            if p.raised is not None and isinstance(p.raised, Unmodelled):
+                raise p.raised
+        ctx.error("canon_dm_prt.paths", "%r" % ([p.raised for p in ex.paths],))
+        return
+    P1 = ok[0].value
+    import random
+
+    rng = random.Random(7)
+    for b in range(2):
+        tr = P1.a[b, 0, 0] + P1.a[b, 1, 1]
+        # the identity is a ratio of degree-8 polynomials in 12 symbols: the normal form does not finish in reasonable time, so the
+        # trace is evaluated exactly (rational arithmetic) at 12 random rational points -- BOUNDED, recorded as such
+        names = sorted(v.val for v in E.free_vars(tr.n))
+        worst = Fraction(0)
+        for _ in range(12):
+            env = {nm: Fraction(rng.randint(1, 40), rng.randint(7, 23)) for nm in names}
+            try:
+                val = E.evaluate(tr.n, env, mode="frac")
+            except ZeroDivisionError:
+                continue
+            worst = max(worst, abs(Fraction(val)))
+        if worst == 0:
+            ctx.ok("canon_dm_prt.response[%d]-is-traceless" % b, "bounded:exact-evaluation-at-12-rational-points")
+        else:
+            ctx.fail("canon_dm_prt.response[%d]-is-traceless" % b, "trace = %s at a sampled rational point" % float(worst), replay=rp(None), witness_class="response-not-number-conserving", backend="bounded:exact-evaluation")
+        foreign = set()
+        for i in range(2):
+            for j in range(2):
+                for v in E.free_vars(P1.a[b, i, j].n):
+                    nm = v.val
+                    if nm.split("_")[0] in ("F1", "h", "mu") and int(nm.split("_")[1]) != b:
+                        foreign.add(nm)
+        (ctx.ok if not foreign else ctx.fail)("canon_dm_prt.response[%d]-mentions-only-its-own-molecule" % b, "frame" if not foreign else "mentions %s" % sorted(foreign), **({} if not foreign else {"replay": rp(None)}))
+    ctx.bounded.append({"what": "tracelessness of the Canon_DM_PRT response", "bound": "exact rational evaluation of the symbolic trace at 12 random points (2 rows, 2 orbitals, m = 1)", "why_not_proved": "rational-function normal form of the identity does not finish; the row-frame clause next to it is exact"})
+    ctx.assume_note("canon_dm_prt: recursion depth m = 1 (the body is the same for every level), two rows of two orbitals, identity eigenvectors (A2: orthonormal eigenvectors keep the trace)")
+
+
 def task_fermi_occupations(ctx):
     """Krylov-subspace / finite-temperature variant: the density EnergyXL.forward builds from F(P) is Fermi_Q's; its chemical
     potential is updated by the Newton step TOWARDS the root of sum_i f_i(mu) = N over the molecule's physical orbitals, the
@@ -523,5 +624,5 @@ def task_ksa_subspace_solve(ctx):
     ksa_subspace_contract(ctx, "seqm.dynamics.xlbomd:EnergyXL.forward", XL.EnergyXL.forward, replay_ksa_md_small_molecule, "ksa_md_subspace")
 
 
-TASKS_QUICK = ["table", "fixed_point", "history", "stability", "shadow_energy", "ksa_subspace_solve", "ksa_subspace_solve_excited", "fermi_occupations"]
+TASKS_QUICK = ["table", "fixed_point", "history", "stability", "shadow_energy", "ksa_subspace_solve", "ksa_subspace_solve_excited", "fermi_occupations", "canon_dm_prt"]
 TASKS_THOROUGH = TASKS_QUICK
